@@ -15,7 +15,7 @@ from .items import first_brace_depth0, _skip_attrs
 
 CLAUSE_KW = {"requires", "ensures", "invariant", "invariant_except_break", "decreases", "recommends",
              "returns", "no_unwind", "opens_invariants", "default_ensures"}
-SIDE = {"attr": "next", "ret_open": "next", "ret_close": "prev", "clause": "next", "ghost": "prev", "iter": "prev"}
+SIDE = {"attr": "next", "ret_open": "next", "ret_close": "prev", "clause": "next", "lclause": "next", "ghost": "prev", "iter": "prev"}
 
 class WeaveError(Exception):
     pass
@@ -131,7 +131,8 @@ def mark_body(toks, a, b):
                         _mark(toks, q + 1, q + 3, "iter")
                 ck = _first_clause_kw(toks, k + 1, body)
                 if ck >= 0:
-                    _mark(toks, ck, body, "clause")
+                    _mark(toks, ck, body, "lclause")
+                    toks[ck].loopkw = k      # index of the loop keyword this clause belongs to
                 k += 1; continue
         k += 1
 
@@ -161,14 +162,23 @@ def runs(toks):
                 cur = [pos, t.ann, [t]]; out.append(cur)
     return out
 
-def weave(template_toks, cur_toks, what=""):
+def weave(template_toks, cur_toks, what="", degrade=False):
     """template_toks: marked tokens of the template item; cur_toks: tokens of the current
-    source item (already rewritten, 'drop' tokens removed). Returns (out_tokens, notes)."""
+    source item (already rewritten, 'drop' tokens removed). Returns (out_tokens, notes).
+    Annotations whose structural anchor no longer exists in the current source (a loop that was
+    removed, a statement boundary that moved) are DROPPED with a note, never placed by guesswork:
+    the function is then verified with what remains.  degrade=True drops every ghost / loop
+    annotation and keeps only the function contract."""
     S = skeleton(template_toks)
     R = runs(template_toks)
     C = cur_toks
     st = [t.text for t in S]; ct = [t.text for t in C]
     notes = []
+    tidx2s = {}
+    k = 0
+    for ti, t in enumerate(template_toks):
+        if t.ann is None:
+            tidx2s[ti] = k; k += 1
     if st == ct:
         s2c = {i: i for i in range(len(S))}
     else:
@@ -178,27 +188,43 @@ def weave(template_toks, cur_toks, what=""):
             if tag == "equal":
                 for d in range(i2 - i1):
                     s2c[i1 + d] = j1 + d
-        notes.append("source differs from pinned skeleton: %d/%d tokens aligned" % (len(s2c), len(S)))
+        notes.append("%s: source differs from pinned skeleton: %d/%d tokens aligned" % (what, len(s2c), len(S)))
     inserts = {}
+    def drop(kind, rt, why):
+        notes.append("DROPPED %s: %s annotation `%s` (%s)" % (what, kind, " ".join(x.text for x in rt[:10]), why))
     for order, (pos, kind, rt) in enumerate(R):
-        side = SIDE[kind]
+        if degrade and kind in ("ghost", "lclause", "iter"):
+            drop(kind, rt, "degraded mode"); continue
         at = None
-        if side == "prev":
+        if kind == "lclause":
+            kw = rt[0].loopkw
+            skw = tidx2s.get(kw)
+            if skw in s2c and pos in s2c and C[s2c[pos]].text == "{" and s2c[skw] < s2c[pos]:
+                at = s2c[pos]
+            else:
+                drop(kind, rt, "its loop is no longer present in the source"); continue
+        elif kind == "clause":
+            if pos in s2c and C[s2c[pos]].text in ("{", ";"):
+                at = s2c[pos]
+            else:
+                raise WeaveError("lost-anchor: %s: function body brace not aligned for the contract" % what)
+        elif kind == "ghost":
             if pos - 1 in s2c: at = s2c[pos - 1] + 1
-            elif pos in s2c: at = s2c[pos]; notes.append("%s: %s annotation re-anchored on following token" % (what, kind))
-        else:
+            elif pos in s2c: at = s2c[pos]
+            if at is None or at == 0 or C[at - 1].text not in (";", "{", "}"):
+                drop(kind, rt, "statement boundary it was attached to is gone"); continue
+        elif kind == "iter":
+            if pos - 1 in s2c and C[s2c[pos - 1]].text == "in": at = s2c[pos - 1] + 1
+            else: drop(kind, rt, "for-loop header changed"); continue
+        elif kind == "ret_open":
             if pos in s2c: at = s2c[pos]
-            elif pos - 1 in s2c: at = s2c[pos - 1] + 1; notes.append("%s: %s annotation re-anchored on preceding token" % (what, kind))
-        if at is None:
-            # nearest aligned token in the preferred direction
-            rng = range(pos - 1, -1, -1) if side == "prev" else range(pos, len(S))
-            for s in rng:
-                if s in s2c:
-                    at = s2c[s] + 1 if side == "prev" else s2c[s]
-                    break
-            if at is None:
-                raise WeaveError("lost-anchor: %s: cannot place %s annotation `%s`" % (what, kind, " ".join(x.text for x in rt[:8])))
-            notes.append("%s: %s annotation placed approximately" % (what, kind))
+            else: raise WeaveError("lost-anchor: %s: return type changed" % what)
+        elif kind == "ret_close":
+            if pos - 1 in s2c: at = s2c[pos - 1] + 1
+            else: raise WeaveError("lost-anchor: %s: return type changed" % what)
+        else:  # attr
+            if pos in s2c: at = s2c[pos]
+            else: at = 0
         inserts.setdefault(at, []).append((order, kind, rt))
     out = []
     for q in range(len(C) + 1):
@@ -208,7 +234,7 @@ def weave(template_toks, cur_toks, what=""):
         if q < len(C):
             c = C[q]
             nt = Tok(c.text, c.ws, c.kind, c.line); nt.ann = None
-            if out and out[-1].ann == "clause" and "\n" not in nt.ws:
+            if out and out[-1].ann in ("clause", "lclause") and "\n" not in nt.ws:
                 nt.ws = "\n"
             out.append(nt)
     # make sure annotation/code boundaries are separated by whitespace where both are word-like
